@@ -32,9 +32,9 @@ type lrand struct {
 	r  *hx.Rand
 }
 
-func (l *lrand) Intn(n int) int { l.mu.Lock(); defer l.mu.Unlock(); return l.r.Intn(n) }
+func (l *lrand) Intn(n int) int     { l.mu.Lock(); defer l.mu.Unlock(); return l.r.Intn(n) }
 func (l *lrand) Range(a, b int) int { l.mu.Lock(); defer l.mu.Unlock(); return l.r.Range(a, b) }
-func (l *lrand) Bool() bool { l.mu.Lock(); defer l.mu.Unlock(); return l.r.Bool() }
+func (l *lrand) Bool() bool         { l.mu.Lock(); defer l.mu.Unlock(); return l.r.Bool() }
 func (l *lrand) Bytes(n int) []byte { l.mu.Lock(); defer l.mu.Unlock(); return l.r.Bytes(n) }
 
 var erng *lrand
@@ -91,6 +91,7 @@ func (h *handler) OnDecodeError(c *gortsplib.ServerHandlerOnDecodeErrorCtx) {
 // ---------- wires of one session ----------
 
 type wires struct {
+	srvUDPIn, cliUDPIn   *wire // counters of datagrams read by the server / by the client
 	srvUDP, cliUDP       *wire // datagrams written by the server / by the client
 	srvRaw, cliRaw       *wire // TCP bytes below TLS written by the server / client
 	srvFrames, cliFrames *wire // interleaved frames (above TLS) written by the server / client
@@ -98,6 +99,7 @@ type wires struct {
 
 func newWires() *wires {
 	return &wires{
+		&wire{name: "udp read by server"}, &wire{name: "udp read by client"},
 		&wire{name: "udp server->client"}, &wire{name: "udp client->server"},
 		&wire{name: "tcp bytes server->client"}, &wire{name: "tcp bytes client->server"},
 		&wire{name: "frames server->client"}, &wire{name: "frames client->server"},
@@ -135,9 +137,10 @@ func startServer(useTLS, udp bool, w *wires, h *handler) *testServer {
 	for attempt := 0; attempt < 10; attempt++ {
 		ts := &testServer{h: h, w: w, tls: useTLS}
 		s := &gortsplib.Server{
-			Handler:      h,
-			RTSPAddress:  "127.0.0.1:0",
-			ListenPacket: tapListenPacket(w.srvUDP, nil),
+			Handler:        h,
+			WriteQueueSize: 1024,
+			RTSPAddress:    "127.0.0.1:0",
+			ListenPacket:   tapListenPacket(w.srvUDP, nil),
 		}
 		listen := func(network, address string, cfg *tls.Config) (net.Listener, error) {
 			ln, err := net.Listen(network, address)
@@ -184,8 +187,9 @@ func newClient(w *wires, proto *gortsplib.Protocol) *gortsplib.Client {
 		return &tapConn{Conn: nc, raw: w.cliRaw}, nil
 	}
 	return &gortsplib.Client{
-		Protocol:     proto,
-		ListenPacket: tapListenPacket(w.cliUDP, nil),
+		WriteQueueSize: 1024,
+		Protocol:       proto,
+		ListenPacket:   tapListenPacket(w.cliUDP, nil),
 		DialContext: func(ctx context.Context, network, addr string) (net.Conn, error) {
 			c, err := dial(ctx, network, addr)
 			if err != nil {
@@ -390,6 +394,7 @@ type e2eRes struct {
 	notes        []string
 	rocSeen      int64
 	lateGot      int64
+	extraReads   int64 // datagrams read by the late joiner's sockets
 	lateSent     int64
 	setupProfile headers.TransportProfile
 	setupProto   gortsplib.Protocol
@@ -484,7 +489,29 @@ func runE2E(cfg e2eCfg) *e2eRes {
 	}
 	note := func(f string, a ...any) { res.notes = append(res.notes, fmt.Sprintf(f, a...)) }
 
-	// paced sending: at most 48 packets beyond what the receiver has seen
+	// paced sending: at most 48 packets beyond what the receiver has seen. A wait ends when the
+	// receiver has caught up, or when it has made no progress for 150 ms (then the missing datagrams
+	// are lost, not late, and are not waited for again), or after 5 s.
+	catchUp := func(f *flow, target int64) bool {
+		end := time.Now().Add(5 * time.Second)
+		if cfg.tcp {
+			end = time.Now().Add(30 * time.Second) // nothing is lost on TCP: wait for the receiver
+		}
+		last, lastChange := f.nGot.Load(), time.Now()
+		for f.nGot.Load() < target {
+			now := time.Now()
+			if now.After(end) {
+				return false
+			}
+			if g := f.nGot.Load(); g != last {
+				last, lastChange = g, now
+			} else if !cfg.tcp && now.Sub(lastChange) > 150*time.Millisecond {
+				return false // UDP: the missing datagrams are lost
+			}
+			time.Sleep(500 * time.Microsecond)
+		}
+		return true
+	}
 	send := func(f *flow, k int, write func(pt uint8, seq uint16) error, rtcpEvery int, writeRTCP func() error) {
 		sent := int64(0)
 		slack := int64(48)
@@ -502,12 +529,12 @@ func runE2E(cfg e2eCfg) *e2eRes {
 				}
 			}
 			if i%16 == 15 {
-				if !waitFor(func() bool { return f.nGot.Load() >= sent-slack }, 300*time.Millisecond) {
-					slack = sent - f.nGot.Load() + 48 // lost datagrams do not come back: do not wait for them again
+				if !catchUp(f, sent-slack) {
+					slack = sent - f.nGot.Load() + 48
 				}
 			}
 		}
-		waitFor(func() bool { return f.nGot.Load() >= sent }, 3*time.Second)
+		catchUp(f, sent)
 	}
 
 	if !cfg.record {
@@ -623,6 +650,7 @@ func runE2E(cfg e2eCfg) *e2eRes {
 			}
 			waitFor(func() bool { return late.nGot.Load() >= res.lateSent }, 2*time.Second)
 			res.lateGot = late.nGot.Load()
+			res.extraReads = w2.cliUDPIn.reads.Load()
 			res.notes = append(res.notes, late.bad...)
 			// the late joiner's wires must be clean as well
 			res.fwd.mu.Lock()
@@ -779,18 +807,36 @@ func judgeE2E(r *e2eRes) {
 		}
 	}
 
-	// 3. integrity: every altered duplicate surfaced as a decode error at the receiver
+	// 3. integrity: every altered duplicate surfaced as a decode error at the receiver.
+	// UDP datagrams (altered ones included) can be dropped by the kernel under load: the number of
+	// datagrams written minus the number read bounds how many reports may be missing.
 	if cfg.tamper > 0 && cfg.secure && len(r.notes) == 0 {
+		lostFwd, lostRev := int64(0), int64(0)
+		if !cfg.tcp {
+			toClient := int64(len(w.srvUDP.units)) - w.cliUDPIn.reads.Load() - r.extraReads
+			toServer := int64(len(w.cliUDP.units)) - w.srvUDPIn.reads.Load()
+			if toClient < 0 {
+				toClient = 0
+			}
+			if toServer < 0 {
+				toServer = 0
+			}
+			lostFwd, lostRev = toClient, toServer
+			if cfg.record {
+				lostFwd, lostRev = toServer, toClient
+			}
+			ctx.Extra("e2e_udp_loss_"+cfg.name, map[string]int64{"media_direction": lostFwd, "feedback_direction": lostRev})
+		}
 		if r.injectedFwd == 0 {
 			ctx.Failf(-1, "tap-selftest", in, "no altered packet was injected")
 		}
-		if r.decodeErrRcv.Load() < int64(r.injectedFwd) {
-			ctx.Failf(-1, "tampered-packet-not-rejected", in, "%d altered packets injected towards the receiver, only %d decode errors reported",
-				r.injectedFwd, r.decodeErrRcv.Load())
+		if r.decodeErrRcv.Load() < int64(r.injectedFwd)-lostFwd {
+			ctx.Failf(-1, "tampered-packet-not-rejected", in, "%d altered packets injected towards the receiver (%d datagrams lost), only %d decode errors reported",
+				r.injectedFwd, lostFwd, r.decodeErrRcv.Load())
 		}
-		if r.decodeErrSnd.Load() < int64(r.injectedRev) {
-			ctx.Failf(-1, "tampered-packet-not-rejected", in, "%d altered feedback packets injected, only %d decode errors reported",
-				r.injectedRev, r.decodeErrSnd.Load())
+		if r.decodeErrSnd.Load() < int64(r.injectedRev)-lostRev {
+			ctx.Failf(-1, "tampered-packet-not-rejected", in, "%d altered feedback packets injected (%d datagrams lost), only %d decode errors reported",
+				r.injectedRev, lostRev, r.decodeErrSnd.Load())
 		}
 	}
 
